@@ -58,11 +58,12 @@ def is_panic_sink(name):
 
 class Loc:
     """a place in abstract memory: structured (obj, path) or byte-addressed (obj, off) for raw allocations"""
-    __slots__ = ('obj', 'path', 'ty', 'win', 'boff', 'viewed', 'meta')
+    __slots__ = ('obj', 'path', 'ty', 'win', 'boff', 'viewed', 'meta', 'part')
 
-    def __init__(self, obj, path, ty, win=None, boff=None, viewed=False, meta=None):
+    def __init__(self, obj, path, ty, win=None, boff=None, viewed=False, meta=None, part=None):
         self.viewed = viewed
         self.meta = meta
+        self.part = part      # (byte offset, byte size): a sub-range of the bytes of the value at (obj, path)
         self.obj = obj
         self.path = path
         self.ty = ty
@@ -139,7 +140,6 @@ class Interp:
         self.slice_len = None
         self.cur_state = None
         self.fork_log = None
-        self.summaries = None
         if budget is not None:
             self.budget = budget
         return self
@@ -192,9 +192,9 @@ class Interp:
         if k == 'closure':
             return Struct(t, [self.top(x, None, depth + 1) for x in d['f']])
         if k == 'adt':
-            if d['adt_kind'] == 'struct' and d.get('size') == 16 and is_simd_type(d):
+            if d['adt_kind'] == 'struct' and d.get('size') in (8, 16) and is_simd_type(d):
                 import simd
-                return simd.Vec(t, [topint(8)] * 16, T.sym(name, 128) if (T.ENABLED and name) else None)
+                return simd.Vec(t, [topint(8)] * d['size'], T.sym(name, 8 * d['size']) if (T.ENABLED and name) else None)
             if d['adt_kind'] == 'struct':
                 return Struct(t, [self.top(f['t'], '%s.%s' % (name, f['name']) if name else None, depth + 1)
                                   for f in d['variants'][0]['f']])
@@ -487,15 +487,15 @@ class Interp:
             return Loc(loc.obj, loc.path + (e[1],), e[2])
         if k == 'i':
             idx = self.read(st, Loc(self.lobj(frame, e[1]), (), frame.body['locals'][e[1]]))
-            return self.index(loc, idx)
+            return self.index(loc, idx, st)
         if k == 'c':
             off, minlen, from_end = e[1], e[2], e[3]
             if from_end:
                 n = self.length_of(st, loc)
                 if n.const is None:
                     raise Unsupported('from-end constant index on slice of unknown length')
-                return self.index(loc, self.usize(n.const - off))
-            return self.index(loc, self.usize(off))
+                return self.index(loc, self.usize(n.const - off), st)
+            return self.index(loc, self.usize(off), st)
         if k == 's':
             frm, to, from_end = e[1], e[2], e[3]
             n = self.length_of(st, loc)
@@ -534,13 +534,36 @@ class Interp:
             return self.usize(len(v.e))
         raise Unsupported('length of %s' % d['s'][:50])
 
-    def index(self, loc, idx):
+    def index(self, loc, idx, st=None):
         d = self.types[loc.ty]
         et = d.get('e')
         if et is None:
             raise Unsupported('index into non-array %s' % d['s'][:50])
         if loc.win is not None:
             idx = self.add_usize(loc.win[0], idx)
+        if loc.viewed and loc.boff is None and st is not None:
+            # an array reinterpreted with a smaller element type (e.g. [uint8x16_t; N] as [u32]): address the bytes
+            s_el = self.types[et].get('size')
+            try:
+                base = self.read(st, Loc(loc.obj, loc.path, None))
+            except Unsupported:
+                base = None
+            for _ in range(4):
+                if isinstance(base, Struct):
+                    nz = [x for x in base.f if not (isinstance(x, Struct) and not x.f)]
+                    if len(nz) == 1:
+                        base = nz[0]
+                        continue
+                break
+            S_el = None
+            if isinstance(base, (Arr, ArrSum)) and base.ty is not None and self.types[base.ty]['k'] in ('array', 'slice'):
+                S_el = self.types[self.types[base.ty]['e']].get('size')
+            if s_el and S_el and S_el > s_el and S_el % s_el == 0:
+                if idx.const is None:
+                    raise Unsupported('abstract index into a reinterpreted array')
+                ratio = S_el // s_el
+                return Loc(loc.obj, loc.path + (('i', idx.const // ratio),), et, viewed=True,
+                           part=((idx.const % ratio) * s_el, s_el))
         if loc.boff is not None:
             es = self.types[et].get('size')
             if idx.const is None:
@@ -615,11 +638,46 @@ class Interp:
         t = None
         for step in loc.path:
             v = self.step_read(v, step, loc)
+        if loc.part is not None:
+            return self.read_part(v, loc)
         if loc.win is not None:
             v = self.window(v, loc.win, loc.ty)
         if loc.viewed and loc.ty is not None:
             v = self.adapt_type(v, loc.ty)
         return v
+
+    def value_type(self, v):
+        t = getattr(v, 'ty', None)
+        if t is None and isinstance(v, AInt):
+            for i, d in enumerate(self.types):
+                if d['k'] == 'int' and d['w'] == v.w and d['sg'] == v.signed and not d.get('psz'):
+                    return i
+        return t
+
+    def read_part(self, v, loc):
+        from ops import flatten, unflatten
+        t = self.value_type(v)
+        bs = flatten(self, v, t) if t is not None else None
+        if bs is None:
+            return self.top(loc.ty)
+        off, n = loc.part
+        r = unflatten(self, bs[off:off + n], loc.ty)
+        return r if r is not None else self.top(loc.ty)
+
+    def write_part(self, old, loc, val):
+        from ops import flatten, unflatten
+        t = self.value_type(old)
+        bs = flatten(self, old, t) if t is not None else None
+        nb = flatten(self, val, loc.ty)
+        off, n = loc.part
+        if bs is None or nb is None or t is None:
+            if t is not None:
+                return self.top(t)
+            raise Unsupported('partial write into %r' % (old,))
+        bs = list(bs)
+        bs[off:off + n] = nb
+        r = unflatten(self, bs, t)
+        return r if r is not None else self.top(t)
 
     def adapt_type(self, v, t, depth=0):
         """reshape a value read through a pointer cast: strip / add transparent wrappers (MaybeUninit, ManuallyDrop,
@@ -867,13 +925,15 @@ class Interp:
         if loc.obj[0] in ('null', 'addr'):
             raise Unsupported('write through invalid pointer')
         old = st.mem.get(loc.obj, UNINIT)
-        if loc.viewed:
+        if loc.viewed and loc.part is None:
             try:
                 cur = self.read(st, Loc(loc.obj, loc.path, None, loc.win))
                 val = self.adapt_like(val, cur)
             except Unsupported:
                 pass
-        if loc.win is not None:
+        if loc.part is not None:
+            st.mem[loc.obj] = self.upd(old, loc.path, lambda o: self.write_part(o, loc, val), loc)
+        elif loc.win is not None:
             st.mem[loc.obj] = self.upd(old, loc.path, lambda o: self.write_window(o, loc.win, val), loc)
         else:
             st.mem[loc.obj] = self.upd(old, loc.path, lambda o: val, loc)
@@ -1454,7 +1514,8 @@ class Interp:
                     q.start = q.elem if q.elem is not None else self.usize(0)
                     q.elem = None
                     q.length = meta
-                    q.view = None
+                    # a thin pointer that reinterprets its target keeps doing so as a slice pointer
+                    q.view = kd[1] if (p.view is not None and isinstance(p, Ptr)) else None
                     return q
                 if isinstance(p, (Ptr, RawPtr)):
                     q = p.copy()
@@ -1661,6 +1722,14 @@ class Interp:
             return self.call_fn(inst, args, st, frame.depth + 1)
         if callee.get('intrinsic'):
             raise Unsupported('intrinsic %s has no model' % callee['intrinsic'])
+        if callee.get('ctor'):
+            # a tuple-struct / tuple-variant constructor used as a function value
+            rt = self.cur_dest_ty
+            if 'ctor_variant' in callee:
+                return Enum(rt, callee['ctor_variant'], args)
+            return Struct(rt, args)
+        if name.endswith('::getauxval') and callee.get('foreign'):
+            return self.top(self.cur_dest_ty)      # cpufeatures' hardware-capability query: any value
         gm = self.models.get('@generic')
         r = gm(self, frame, st, args, callee, name)
         if r is not NotImplemented:
